@@ -47,6 +47,9 @@ type op struct {
 
 type kase struct {
 	Ops []op `json:"ops"`
+	// Lead holds the first two bytes of each peer's overlay address (empty: the fixed pool). The
+	// listing parses addresses back out of store keys, so the address itself is an input.
+	Lead [][2]byte `json:"lead,omitempty"`
 }
 
 type addRec struct {
@@ -113,17 +116,22 @@ type stats struct {
 
 var t0 = time.Date(2024, 3, 1, 12, 0, 0, 0, time.UTC)
 
-var peerAddr = func() []boson.Address {
+var peerAddr = addrsOf(kase{})
+
+func addrsOf(c kase) []boson.Address {
 	var r []boson.Address
 	for i := 0; i < npeers; i++ {
 		b := make([]byte, 32)
 		for k := range b {
 			b[k] = byte(0x11*(i+1) + k)
 		}
+		if i < len(c.Lead) {
+			b[0], b[1], b[2] = c.Lead[i][0], c.Lead[i][1], byte(i) // byte 2 keeps the peers distinct
+		}
 		r = append(r, boson.NewAddress(b))
 	}
 	return r
-}()
+}
 
 func peerIndex(a boson.Address) int {
 	for i, p := range peerAddr {
@@ -200,6 +208,7 @@ func run(c kase) (st stats, sig string, err error) {
 	if e != nil {
 		return st, "C25/harness", fmt.Errorf("state store: %v", e)
 	}
+	peerAddr = addrsOf(c)
 	bl := verifx.NewBlocklist(store)
 	model := make([]pmodel, npeers)
 
@@ -486,6 +495,16 @@ func genCase(t *rapid.T) kase {
 		}
 		c.Ops = append(c.Ops, o)
 	}
+	// peer addresses: any leading bytes (every hex digit in the first positions now and then)
+	leadGen := rapid.Custom(func(t *rapid.T) [2]byte {
+		if rapid.Bool().Draw(t, "anylead") {
+			return [2]byte{rapid.Byte().Draw(t, "l0"), rapid.Byte().Draw(t, "l1")}
+		}
+		nib := func(l string) byte { return byte(rapid.IntRange(0, 15).Draw(t, l)) }
+		x, y := nib("n0"), nib("n1")
+		return [2]byte{x<<4 | x, x<<4 | y}
+	})
+	c.Lead = rapid.SliceOfN(leadGen, npeers, npeers).Draw(t, "lead")
 	// always end with a full agreement check
 	c.Ops = append(c.Ops, op{K: "agree"})
 	return c
@@ -529,7 +548,7 @@ func saveReplay(name string, v interface{}) {
 	_ = os.WriteFile(filepath.Join(dir, name), b, 0o644)
 }
 
-const rule = "rapid: op lists (2..30) over 3 peers (one hot) on the real blocklist over an in-memory leveldb state store with the package clock replaced: Add(d in {0=forever,1ns,1s,1.5s,5s,1h-1ns,1h} or uniform 1ns..10s / 1ns..3h; no negative durations), Remove, Exists, Peers, Peers-then-Exists agreement, AdvanceClock(delta in {0,1ns,1s,5s,1h, a used duration} -1/0/+1ns) and AdvanceTo(a requested-period end or latest+longest bound of a peer, -1/0/+1ns). Oracle: interval model per peer since last Remove (blocked inside every requested period [t,t+d], d=0 forever; unblocked after Remove and beyond latest request + longest duration; the gap between is not asserted); around every Add a side-effect-free look-ahead through Peers() at 13 future offsets checks that no instant blocked before the Add is unblocked after it. non-trivial = at least two Adds with different durations on one peer between removals; distinct by hash of the op list"
+const rule = "rapid: op lists (2..30) over 3 peers (one hot; the two leading bytes of each overlay address are generated, uniform or with repeated hex digits) on the real blocklist over an in-memory leveldb state store with the package clock replaced: Add(d in {0=forever,1ns,1s,1.5s,5s,1h-1ns,1h} or uniform 1ns..10s / 1ns..3h; no negative durations), Remove, Exists, Peers, Peers-then-Exists agreement, AdvanceClock(delta in {0,1ns,1s,5s,1h, a used duration} -1/0/+1ns) and AdvanceTo(a requested-period end or latest+longest bound of a peer, -1/0/+1ns). Oracle: interval model per peer since last Remove (blocked inside every requested period [t,t+d], d=0 forever; unblocked after Remove and beyond latest request + longest duration; the gap between is not asserted); around every Add a side-effect-free look-ahead through Peers() at 13 future offsets checks that no instant blocked before the Add is unblocked after it. non-trivial = at least two Adds with different durations on one peer between removals; distinct by hash of the op list"
 
 func TestC25_Model(t *testing.T) {
 	r := evid.Get(id)
